@@ -172,14 +172,67 @@ impl Ident {
     #[verifier::external_body] pub fn name(&self) -> (r: &VStr) ensures *r == self.name { unimplemented!() }
 }
 #[verifier::external_body] pub struct ExprV { x: usize }
-pub enum ValueE { Ident(Ident), Other(ExprV) }
+pub enum ValueE { Ident(Ident), MathExpr(Box<Expr>), Other(ExprV) }
 impl ValueE {
     #[verifier::external_body] pub fn for_type(&self, f: &Flags) -> (r: Result<TypeLayout, VErr>) { unimplemented!() }     // Value::for_type (abstract)
 }
-pub enum Expr { Value(ValueE), Index { lhs_raw: Box<Expr>, x: ExprV }, DotLookup { lhs: Box<Expr>, expected_type: TypeLayout, x: ExprV }, Other(ExprV) }
-// the variable at the root of an index / field access chain
-pub open spec fn root(e: Expr) -> Option<Ident> decreases e {
-    match e { Expr::Value(ValueE::Ident(i)) => Some(i), Expr::Index { lhs_raw, .. } => root(*lhs_raw), Expr::DotLookup { lhs, .. } => root(*lhs), _ => None }
+pub enum Expr { Value(ValueE), Index { lhs_raw: Box<Expr>, x: ExprV }, DotLookup { lhs: Box<Expr>, expected_type: TypeLayout, x: ExprV },
+                UnaryUnwrap { value: Box<Expr>, span: ExprV }, NilEval { primary: Box<Expr>, fallback: ValueE }, Other(ExprV) }
+// THE VARIABLES A PLACE IS ROOTED AT (from the property: "index or field assignment rooted at it"): the variables whose object the store may
+// go into.  `a[0].x[1]` -> a; `get a` is the object a holds -> a; `(a) or b` is a's object when a is present and b's otherwise -> both
+pub open spec fn roots(e: Expr) -> Set<Ident> decreases e {
+    match e {
+        Expr::Value(ValueE::Ident(i)) => set![i],
+        Expr::Value(ValueE::MathExpr(x)) => roots(*x),
+        Expr::Index { lhs_raw, .. } => roots(*lhs_raw),
+        Expr::DotLookup { lhs, .. } => roots(*lhs),
+        Expr::UnaryUnwrap { value, .. } => roots(*value),
+        Expr::NilEval { primary, fallback } => roots(*primary).union(roots_v(fallback)),
+        _ => Set::empty(),
+    }
+}
+// a value: a name, or an expression in its own right
+pub open spec fn roots_v(v: ValueE) -> Set<Ident> decreases v {
+    match v { ValueE::Ident(i) => set![i], ValueE::MathExpr(x) => roots(*x), _ => Set::empty() }
+}
+// std: Option::or
+pub assume_specification<T>[Option::<T>::or](a: Option<T>, b: Option<T>) -> (r: Option<T>) ensures r == (if a is Some { a } else { b });
+// "one of them is const" (the same recursion, folded: no quantifier for the solver to instantiate)
+pub open spec fn has_const_root(e: Expr) -> bool decreases e {
+    match e {
+        Expr::Value(ValueE::Ident(i)) => i.read_only,
+        Expr::Value(ValueE::MathExpr(x)) => has_const_root(*x),
+        Expr::Index { lhs_raw, .. } => has_const_root(*lhs_raw),
+        Expr::DotLookup { lhs, .. } => has_const_root(*lhs),
+        Expr::UnaryUnwrap { value, .. } => has_const_root(*value),
+        Expr::NilEval { primary, fallback } => has_const_root(*primary) || has_const_root_v(fallback),
+        _ => false,
+    }
+}
+pub open spec fn has_const_root_v(v: ValueE) -> bool decreases v {
+    match v { ValueE::Ident(i) => i.read_only, ValueE::MathExpr(x) => has_const_root(*x), _ => false }
+}
+pub proof fn lemma_const_root(e: Expr) ensures has_const_root(e) <==> exists|i: Ident| #[trigger] roots(e).contains(i) && i.read_only decreases e {
+    match e {
+        Expr::Value(ValueE::Ident(i)) => { assert(roots(e).contains(i)); assert forall|j: Ident| roots(e).contains(j) implies j == i by {} }
+        Expr::Value(ValueE::MathExpr(x)) => { lemma_const_root(*x); assert(roots(e) == roots(*x)); }
+        Expr::Value(ValueE::Other(_)) => {}
+        Expr::Index { lhs_raw, .. } => { lemma_const_root(*lhs_raw); assert(roots(e) == roots(*lhs_raw)); }
+        Expr::DotLookup { lhs, .. } => { lemma_const_root(*lhs); assert(roots(e) == roots(*lhs)); }
+        Expr::UnaryUnwrap { value, .. } => { lemma_const_root(*value); assert(roots(e) == roots(*value)); }
+        Expr::NilEval { primary, fallback } => {
+            lemma_const_root(*primary); lemma_const_root_v(fallback);
+            assert forall|j: Ident| roots(e).contains(j) <==> (roots(*primary).contains(j) || roots_v(fallback).contains(j)) by {}
+        }
+        Expr::Other(_) => {}
+    }
+}
+pub proof fn lemma_const_root_v(v: ValueE) ensures has_const_root_v(v) <==> exists|i: Ident| #[trigger] roots_v(v).contains(i) && i.read_only decreases v {
+    match v {
+        ValueE::Ident(i) => { assert(roots_v(v).contains(i)); assert forall|j: Ident| roots_v(v).contains(j) implies j == i by {} }
+        ValueE::MathExpr(x) => { lemma_const_root(*x); assert(roots_v(v) == roots(*x)); }
+        ValueE::Other(_) => {}
+    }
 }
 #[derive(PartialEq, Eq)]
 pub enum Op { Add, Subtract, Multiply, Divide, Modulo, Lt, Gt, Lte, Gte, Eq, Neq, And, Or, Xor, Unwrap, AddAssign, SubAssign, MulAssign, DivAssign, ModAssign, BinaryXor, BinaryOr, BinaryAnd, BitwiseLs, BitwiseRs, Is }
@@ -253,6 +306,11 @@ def build_for_type(repo):
     broot = translate(froot["body"], [Rule("R1", "Value :: Ident", "ValueE :: Ident", why="enum renamed in the model"),
                                       Rule("R1", "$x . as_ref ( )", "( & * * $x )", why="Box<Expr>::as_ref on a by-reference binding")], log, "Expr::root_ident")
     check_closed(broot, "Expr::root_ident")
+    VALUE = "compiler/src/ast/value.rs"
+    fvroot = src.fn(VALUE, "root_ident", "impl Value")
+    bvroot = translate(fvroot["body"], [Rule("R1", "Value :: Ident", "ValueE :: Ident", why="enum renamed in the model"),
+                                        Rule("R1", "Value :: MathExpr", "ValueE :: MathExpr", why="enum renamed in the model")], log, "Value::root_ident")
+    check_closed(bvroot, "Value::root_ident")
     gen = header(log, f"{MATH}: Expr::for_type, arm Expr::BinOp; Expr::root_ident") + prelude("parser.rs") + FT_SPEC + f"""
 impl Op {{
     //@ OBL C10.op.is_op_assign
@@ -262,10 +320,23 @@ impl Op {{
 {render(bia, 2)}
     }}
 }}
+impl ValueE {{
+    //@ OBL C10.root_ident.value
+    pub fn root_ident(&self) -> (r: Option<&Ident>)
+        ensures
+            r is Some ==> roots_v(*self).contains(*r->Some_0),
+            has_const_root_v(*self) ==> r is Some && r->Some_0.read_only,
+        decreases self
+    {{
+{render(bvroot, 2)}
+    }}
+}}
 impl Expr {{
     //@ OBL C10.root_ident
     pub fn root_ident(&self) -> (r: Option<&Ident>)
-        ensures r is Some <==> root(*self) is Some, r is Some ==> *r->Some_0 == root(*self)->Some_0
+        ensures
+            r is Some ==> roots(*self).contains(*r->Some_0),       // a variable the place is rooted at ...
+            has_const_root(*self) ==> r is Some && r->Some_0.read_only,   // ... and a const one whenever there is one
         decreases self
     {{
 {render(broot, 2)}
@@ -278,7 +349,7 @@ pub fn for_type_binop(lhs: &Expr, op: &Op, rhs: &Expr, flags: &Flags) -> (r: Res
         // C10: every operator that stores into its left operand is rejected when that operand is a const name
         (r is Ok && op_writes(*op) && lhs is Value && lhs->Value_0 is Ident) ==> !lhs->Value_0->Ident_0.read_only,
         // ... including an element or field reached through a const variable
-        (r is Ok && op_assigns(*op) && root(*lhs) is Some) ==> !root(*lhs)->Some_0.read_only,
+        (r is Ok && op_assigns(*op)) ==> !has_const_root(*lhs),
         // ... and a member of a MODULE, whatever (non-const) name the module value is reached through: `x = m; x.k += 3` must not change m's export
         (r is Ok && op_assigns(*op) && lhs is DotLookup) ==> !(expr_type(&*lhs->DotLookup_lhs, flags) is Some && is_module_ty(expr_type(&*lhs->DotLookup_lhs, flags)->Some_0)),
         // C03 / C16: a compound assignment is accepted only onto an assignable place: a name, an element or a field (code generation
@@ -297,7 +368,8 @@ pub fn for_type_binop(lhs: &Expr, op: &Op, rhs: &Expr, flags: &Flags) -> (r: Res
 fn main() {{}}
 """
     return gen, [Obl("C10.op.is_op_assign", ["C10", "C03", "C02"], fn="Op::is_op_assign", desc="Op::is_op_assign: true exactly for += -= *= /= %= (the operators whose const test Expr::for_type runs)"),
-                 Obl("C10.root_ident", ["C10"], fn="Expr::root_ident", desc="Expr::root_ident: the variable at the root of an index / field chain"),
+                 Obl("C10.root_ident.value", ["C10"], fn="Value::root_ident", desc="Value::root_ident: the same for a value (a name, or an expression in its own right)"),
+                 Obl("C10.root_ident", ["C10"], fn="Expr::root_ident", desc="Expr::root_ident: a variable the place is rooted at -- through index, field, `get` and `or` -- and a const one whenever there is one"),
                  Obl("C10.for_type.binop", ["C10", "C03", "C16", "C02", "C11"], fn="for_type_binop",
                      desc="Expr::for_type (BinOp): `+= -= *= /= %=` and `?=` on a const name are rejected; an accepted operation has an entry in the operator table")], log
 
